@@ -261,12 +261,23 @@ def oracle(raw, mc_seed=7):
     return fail("range", "the response holds a negative or non-finite number", dict(response=resp), "finite, >= 0"), "fail"
   if ref["cond"] > COND_MAX:
     return None, "skip:ill-conditioned"
+  # cancellation in the library's squared distances |x|^2 + |z|^2 - 2 x.z: absolute error ~ eps * sum_d (x_d / l_d)^2 in r^2 / l^2, hence in every kernel
+  # entry (times alpha) - it matters where sigma is tiny, i.e. at a query point that is an observed one, in a domain far from the origin relative to
+  # a length scale (thorough tier, seed 2718: coordinates -10 .. -9, length scale 0.309, sigma 1e-5: |d| 2.5e-9 on an EI of 3.5e-6)
+  geo = 0.0
+  try:
+    for g in obs["pred"]["gps"]:
+      ls = g["hyp"][1:]
+      for row in list(g["pts"]) + list(obs.get("eval_oh") or []):
+        geo = max(geo, sum((abs(x) / l) ** 2 for x, l in zip(row, ls)))
+  except (KeyError, TypeError, ZeroDivisionError):
+    geo = 0.0
   for k, (a, b) in enumerate(zip(resp, ref["ei"])):
     if b is None:
       continue
     s = ref["sigma"][k] / ref["costs"][k]
     # float rounding: relative error of the posterior (conditioning) plus the cancellation k(x,x) - k^T K^-1 k when sigma is tiny
-    tol = s * (1e-5 + 1e-13 * ref["cond"]) + (ref["prior"][k] / ref["sigma"][k]) * (1e-15 + 1e-16 * ref["cond"]) / ref["costs"][k] + 1e-15
+    tol = s * (1e-5 + 1e-13 * ref["cond"]) + (ref["prior"][k] / ref["sigma"][k]) * (1e-15 + 1e-16 * ref["cond"] + 1e-16 * geo) / ref["costs"][k] + 1e-15
     if ref["mc_se"][k] is not None:
       # Monte-Carlo form: 6 standard errors, plus 2e-3 sigma because far in the tail (EI << sigma) the 10000-draw estimate is
       # Poisson-like and its standard error cannot be estimated reliably from samples
